@@ -13,7 +13,7 @@ impl RegexReplacement {
     #[verifier::external_body]
     pub fn execute<'t>(&self, s: &'t str) -> (r: Cow<'t, str>) ensures cow_view(&r) == regex_replaced(self, s@) { unimplemented!() }
 }
-//@ type src/config.rs Config keep=hyperlinks_file_link_format,hostname,hyperlinks,diff_stat_align_width,file_regex_replacement
+//@ type src/config.rs Config keep=hyperlinks_file_link_format,hostname,hyperlinks,diff_stat_align_width,file_regex_replacement,file_modified_label,file_removed_label,file_added_label,file_renamed_label,file_copied_label,right_arrow
 
 /// `str::replace(from, to)` ("Replaces all matches of a pattern with another string"): uninterpreted,
 /// the result is a function of the three strings.
@@ -148,6 +148,50 @@ pub open spec fn format_file_spec(file: Seq<char>, config: &Config) -> Seq<char>
 //@from <<<let formatted_file = if let Some(regex_replacement)>>>
 //@to <<<_ => formatted_file, }>>>
 //@| ensures cow_view(&r) == format_file_spec(file@, config),  // @C19:file.header.link.wraps.the.shown.name.and.targets.the.named.file
+
+// ---------------------------------------------------------------- handlers/diff_header.rs: what the file header line says (C14)
+//@ type src/handlers/diff_header.rs FileEvent derives=Clone,Copy,PartialEq,Eq,Structural
+/// a label is followed by one blank, an empty label by nothing
+pub open spec fn label_spec(label: Seq<char>) -> Seq<char> { if label.len() > 0 { label + " "@ } else { Seq::empty() } }
+//@ region src/handlers/diff_header.rs get_file_change_description_from_file_paths
+//@sig pub fn format_label_region(label: &str) -> (r: String)
+//@from <<<if !label.is_empty() {>>>
+//@until <<<}; if comparing {>>>
+//@| ensures r@ =~= label_spec(label@),  // @C14:a.label.is.separated.from.the.path.by.one.blank.and.an.empty.label.leaves.nothing
+//@before <<<if !label.is_empty() {>>>| proof { reveal_strlit(" "); reveal_strlit(""); }
+/// ASSUMED: a `str` is its text (Verus matches a string-literal PATTERN by equality of the str values, and knows that
+/// equal values have equal text, but not the converse)
+pub axiom fn axiom_str_is_its_text(a: &str, b: &str)
+    requires a@ == b@,
+    ensures a == b;
+/// C14: the file header names the file - once when both sides name the same file, the old name for a removed file, the
+/// new name for an added file, and OLD then NEW around the arrow for a renamed or copied one - after the label of the event
+pub open spec fn description_spec(minus_file: Seq<char>, plus_file: Seq<char>, event: FileEvent, config: &Config) -> Seq<char> {
+    if minus_file == plus_file { label_spec(config.file_modified_label@) + format_file_spec(minus_file, config) }
+    else if plus_file == "/dev/null"@ { label_spec(config.file_removed_label@) + format_file_spec(minus_file, config) }
+    else if minus_file == "/dev/null"@ { label_spec(config.file_added_label@) + format_file_spec(plus_file, config) }
+    else {
+        label_spec(match event { FileEvent::Rename => config.file_renamed_label@, FileEvent::Copy => config.file_copied_label@, _ => config.file_modified_label@ })
+            + format_file_spec(minus_file, config) + " "@ + config.right_arrow@ + " "@ + format_file_spec(plus_file, config)
+    }
+}
+//@ region src/handlers/diff_header.rs get_file_change_description_from_file_paths
+//@sig pub fn file_change_description_region<'a>(minus_file: &'a str, plus_file: &'a str, minus_file_event: &FileEvent, plus_file_event: &FileEvent, config: &'a Config) -> (r: String)
+//@from <<<match (minus_file, plus_file, minus_file_event, plus_file_event) {>>>
+//@toblock
+//@| ensures r@ =~= description_spec(minus_file@, plus_file@, *minus_file_event, config),  // @C14:the.file.header.names.the.right.file.old.then.new.for.renames.and.copies.after.the.label.of.the.event
+//@before <<<match (minus_file, plus_file, minus_file_event, plus_file_event) {>>>| proof { reveal_strlit(" "); reveal_strlit(""); if plus_file@ == "/dev/null"@ { axiom_str_is_its_text(plus_file, "/dev/null"); } if minus_file@ == "/dev/null"@ { axiom_str_is_its_text(minus_file, "/dev/null"); } }
+//@rewriteall <<<format_file(minus_file)>>> => <<<format_file_region(minus_file, config)>>>
+//@rewriteall <<<format_file(plus_file)>>> => <<<format_file_region(plus_file, config)>>>
+//@rewriteall <<<format_label(>>> => <<<format_label_region(>>>
+/// the header of a plain `diff -u a b` comparison: both names as given
+//@ region src/handlers/diff_header.rs get_file_change_description_from_file_paths
+//@sig pub fn file_comparison_description_region(minus_file: &str, plus_file: &str, config: &Config) -> (r: String)
+//@fromafter <<<if comparing {>>>
+//@until <<<} else { let format_file = |file| {>>>
+//@before <<<verif_fmt4(>>>| proof { reveal_strlit(" "); reveal_strlit(""); }
+//@| ensures r@ =~= label_spec(config.file_modified_label@) + minus_file@ + " "@ + config.right_arrow@ + " "@ + plus_file@,  // @C14:a.comparison.header.shows.both.names.old.then.new
+//@rewriteall <<<format_label(>>> => <<<format_label_region(>>>
 
 // ---------------------------------------------------------------- features/line_numbers.rs format_line_number
 //@ type src/format.rs Align derives=Clone,Copy,PartialEq,Eq,Structural
